@@ -1159,7 +1159,7 @@ def call_info(ex, info, fn, args, kw):
                 pass
     self_for_super = args[0] if (cls is not None and args) else None
     c = ex.contracts.get(info.key)
-    if c is not None and not (ex.verify_key == info.key and ex.verify_depth_ok()):
+    if c is not None:
         r = contracts.apply(ex, c, info, fn, bound, cls, closure_env, self_for_super)
         if r is not contracts.INLINE:
             return r
